@@ -587,9 +587,11 @@ def execute_raised(ex, E, command):
     from goodwe.exceptions import RequestRejectedException, RequestFailedException, MaxRetriesException
     g = ghost(ex)
     g.requests.append((request_kind(ex, command), command))
+    g.execute_raised = E
     if E is RequestRejectedException:
         from .models import fresh_strid
-        return ex.new_object(RequestRejectedException(fresh_strid(ex, "reason")))
+        g.execute_rejection = ex.new_object(RequestRejectedException(fresh_strid(ex, "reason")))
+        return g.execute_rejection
     if E is MaxRetriesException:
         return ex.new_object(MaxRetriesException())
     return ex.new_object(RequestFailedException("no valid response"))
@@ -617,9 +619,17 @@ def read_from_socket_counter(ex):
         coro.run(ex)
     except PyRaise as pr:
         e = pr.exc
-        ex.check("C09_raises_only_failed_or_rejected", isinstance(e, (RequestFailedException, RequestRejectedException)),
+        ex.check("C09_C15_raises_only_failed_or_rejected", isinstance(e, (RequestFailedException, RequestRejectedException)),
                  detail=repr(e))
         new = inv._consecutive_failures_count
+        # what the transport reported is what the caller gets: a rejection stays a rejection (the inverter classes
+        # test for it to detect unsupported blocks, C08 / C15), everything else becomes RequestFailedException
+        if getattr(g, "execute_raised", None) is RequestRejectedException:
+            ex.check("C08_C09_C15_rejection_surfaces_as_the_rejection_it_was", e is g.execute_rejection,
+                     detail=repr(e))
+        else:
+            ex.check("C09_transport_failure_surfaces_as_RequestFailedException", isinstance(e, RequestFailedException),
+                     detail=repr(e))
         if isinstance(e, RequestFailedException):
             ex.check("C09_failure_increments_counter", mk_bool(iterm(new) == count.t + 1))
             ex.check("C09_failure_reports_counter", mk_bool(iterm(e.consecutive_failures_count) == count.t + 1))
@@ -725,6 +735,10 @@ def readonly_call(ex, family, method, history=False):
                     want.append(s.id_)
             ex.check("C11_every_setting_id_reported", list(res.keys()) == want)
     except PyRaise as pr:
+        if method == "read_settings_data" and family in ("ET", "ES"):
+            # the bulk read reports what it cannot read or decode as None; only a failure of the transport may end it
+            ex.check("C11_every_setting_id_reported", isinstance(pr.exc, InverterError),
+                     detail=f"read_settings_data raised {pr.exc!r}"[:200])
         listed = not args or args[0] not in ("no_such_id", "time", "modbus-47000") or method == "read_setting"
         if listed and not isinstance(pr.exc, NotImplementedError):     # NotImplementedError rows: finding of C16
             ex.check("C09_only_documented_exceptions", isinstance(pr.exc, (InverterError, ValueError)),
@@ -768,7 +782,18 @@ def invalid_setter(ex, family, case):
         fn, args = inv.set_operation_mode, [mode, x, y]
         must_raise_value_error = True
     elif case == "unknown_setting":
-        fn, args = inv.write_setting, ["no_such_setting", x]
+        # ids that are not settings of this object: a made-up one, and ids of runtime sensors (known to the object
+        # under another role) whose class could encode a value
+        known = set(inv._settings)
+        pool = ["no_such_setting"]
+        for srow in ex.call(inv.sensors, [], {}):
+            if srow.id_ not in known and setting_value_kind(srow) == "int" and srow.id_ not in pool:
+                pool.append(srow.id_)
+            if len(pool) >= 4:
+                break
+        sid = pool[ex.choose(len(pool), tag="unknown.id")]
+        ex.inputs["setting_id"] = sid
+        fn, args = inv.write_setting, [sid, x]
         must_raise_value_error = True
     else:
         raise Unsupported(case)
@@ -897,6 +922,8 @@ class RegFile:
                 if not isinstance(count, int):
                     raise Unsupported("symbolic register count")
                 payload = self._payload_from(ex, self.mem, addr, count)
+                if getattr(self, "padded_replies", False) and ex.choose(2, tag="reply.padded") == 1:
+                    payload = payload.concat(SBytes.fresh(ex, "trailing", 2))
                 self.log.append(("read", "modbus", addr, count, None))
             elif fn == 6:
                 data = r.slice(ex, o + 4, o + 6)
@@ -1005,6 +1032,9 @@ def write_setting_row(ex, family, index, port=8899):
     g.consistent_refusal = False
     g.regs = RegFile(ex)
     regs = g.regs
+    # one-byte settings are written read-modify-write: the validated read answer may be longer than announced (C01: "at
+    # least as long as its header announces"), i.e. the decoded block may carry trailing bytes
+    regs.padded_replies = (s.size_ == 1 and family != "ES")
     if kind == "int":
         v = ex.fresh_int("value")
     elif kind == "float":
